@@ -432,7 +432,7 @@ func runCheck(args []string) int {
 			samples = append(samples, map[string]interface{}{"note": "no completed path sampled"})
 		}
 		ev := evidence{PropertyID: *prop, Tier: *tier, Seed: seed, Level: "model_checking", WallS: wall, Violations: reported,
-			Assumptions: spec.Assumptions,
+			Assumptions: append(append([]string{}, baseAssumptions...), spec.Assumptions...),
 			Coverage: map[string]interface{}{
 				"states":                        paths,
 				"transitions":                   int(total.Branches) + 1,
@@ -470,6 +470,16 @@ func runCheck(args []string) int {
 	fmt.Printf("property=%s tier=%s cells=%d paths=%d completed=%d asserts=%d unsat=%d queries=%d solver=%.1fs wall=%.1fs exit=%d\n",
 		*prop, *tier, len(jobs), paths, completed, asserts, assertsUnsat, total.SolverQueries, float64(total.SolverNs)/1e9, wall, exit)
 	return exit
+}
+
+var baseAssumptions = []string{
+	"go/packages + go/ssa (x/tools v0.29.0) build the SSA of /repo's working tree faithfully",
+	"engine instruction semantics for go/ssa (wrap-around bit-vector arithmetic at the Go width); cross-checked on sampled paths of every run by executing the natively compiled harness under the path's model and comparing the noted bytes",
+	"z3 4.8.12 answers; any (error line or unknown makes the run inconclusive (exit 2), never a pass",
+	"library models: fmt.Sprintf/Errorf verbs %s %d %v %x %q %T, strconv Itoa/FormatInt/Atoi/ParseInt/ParseUint (decimal text of a symbolic integer is a digit string whose value is the integer; proven thresholds fork on digit count), strings/bytes leaf functions, text/template for literal text with {{.name}} actions, os file API as an in-memory file system, sync as single-threaded no-ops; log output is not formatted (format strings recorded as diagnostics)",
+	"instruction table: the embedded JSON is decoded natively and injected as interpreter values following the json tags of gosk's own types; gosk's Go code that post-processes it (fallback forms) is executed symbolically like everything else",
+	"vrt.Once: a concrete, deterministic computation (parsing a literal-free template) is run once per cell and reused across that cell's paths",
+	"'accepted without diagnostic' = run returned normally, no panic/exit, no recorded log/stdout line containing error/failed/unsupported/invalid/unknown/not found/not implemented or 'GOSK :' (generous on purpose: a lenient notion of diagnosed can only lose detections)",
 }
 
 func sortedKeysB(m map[string]bool) []string {
